@@ -36,6 +36,9 @@ KINDS = {
     "nullstr": {"type": "string", "nullable": True},
     "const": {"const": "csv"},                                          # Literal[...] in the signature: needs its own import
     "unionstrint": {"oneOf": [{"type": "string"}, {"type": "integer"}]},
+    "listenum": {"type": "array", "items": {"$ref": "#/components/schemas/Color"}},
+    "nullint": {"type": "integer", "nullable": True},
+    "model": {"$ref": "#/components/schemas/Item"},          # an object as query parameter: its properties are spread into the query
 }
 HEADER_KINDS = ["str", "int", "num", "bool", "enum"]
 PATH_KINDS = ["str", "int", "enum", "date"]
@@ -144,9 +147,16 @@ def document(version="3.0.3"):
 
 # ---- symbolic arguments and their expected encodings (spec side) ------------------------------------------------------
 
+class Spread:
+    """expected encoding of an object-typed query parameter: its (JSON) properties become query parameters themselves"""
+
+    def __init__(self, items):
+        self.items = items
+
+
 class ArgBuilder:
-    def __init__(self, I, pkg):
-        self.I, self.pkg = I, pkg
+    def __init__(self, I, pkg, comps=None):
+        self.I, self.pkg, self.comps = I, pkg, comps
         self.n = 0
 
     def fresh(self, prefix, sort):
@@ -207,6 +217,23 @@ class ArgBuilder:
             n = 0 if I.branch_free() else 1
             v = SObj(datetime.date, {"__of__": SObj(datetime.datetime, {"__iso__": SStr(s)})})
             return SList([v][:n]), SList([SStr(s)][:n]), None
+        if kind == "listenum":
+            cls = self.pkg.module("models.color").Color
+            members = list(cls)
+            n = I.choose(3)
+            picked = [members[(j + n) % len(members)] for j in range(n)]
+            return SList(list(picked)), SList([m.value for m in picked]), None
+        if kind == "nullint":
+            if I.branch_free():
+                return None, None, None
+            i = SInt(self.fresh(hint, z3.IntSort()))
+            return i, i, SStr(Z.int_str(i.t))
+        if kind == "model":
+            cls = self.pkg.module("models.item").Item
+            wb = fragments.WireBuilder(I, self.comps)
+            src = wb.object(wb.resolve({"$ref": "#/components/schemas/Item"}), hint, 0)
+            obj = I.call(I.get_attr(cls, "from_dict"), [src], {})
+            return obj, Spread(dict(src.items)), None
         if kind == "const":
             return "csv", "csv", "csv"                 # the only admitted value
         if kind == "unionstrint":
@@ -259,7 +286,7 @@ def build_call(I, pkg, doc, opid, method, path, params, content, overrides=None)
     if True:
         mod = pkg.module(f"api.{tag}.{opid}")
         unset = pkg.module("types").UNSET
-        ab = ArgBuilder(I, pkg)
+        ab = ArgBuilder(I, pkg, doc["components"]["schemas"])
         fn = mod._get_kwargs
         import inspect
         sig = inspect.signature(fn)
@@ -289,7 +316,9 @@ def build_call(I, pkg, doc, opid, method, path, params, content, overrides=None)
             kwargs[pyname] = v
             loc = p["in"]
             if loc == "query":
-                if v is not None:
+                if isinstance(enc, Spread):
+                    expected["query"].update(enc.items)
+                elif v is not None:
                     expected["query"][p["name"]] = enc
             elif loc == "header":
                 expected["header"][p["name"]] = hdr
